@@ -261,6 +261,9 @@ pub enum UserReq {
     /// write one block: (block number, last?, data length)
     FileWriteBlock(u32, bool, usize),
     FileClose,
+    /// a file request with caller-chosen strings: kind 0 open, 1 get info, 2 authenticate, 3 read with credentials,
+    /// 4 read directory; (kind, path, user name, password)
+    FileNamed(u8, String, String, String),
     /// READ with several headers: (kind 0 all | 1 range8 | 2 range16 | 3 count8 | 4 count16, group, variation, a, b)
     ReadHeaders(Vec<(u8, u8, u8, u16, u16)>),
 }
@@ -687,6 +690,50 @@ impl MasterSim {
                     )
                 }
                 UserReq::FileClose => format!("{:?}", h.close_file(FileHandle::new(0x0102_0304)).await),
+                UserReq::FileNamed(kind, path, user, pass) => {
+                    let cred = FileCredentials {
+                        user_name: user,
+                        password: pass,
+                    };
+                    match kind {
+                        0 => format!(
+                            "{:?}",
+                            h.open_file(path, AuthKey::new(9), Permissions::default(), 0, FileMode::Read, 512)
+                                .await
+                        ),
+                        1 => format!("{:?}", h.get_file_info(path).await),
+                        2 => format!("{:?}", h.get_file_auth_key(cred).await),
+                        3 => {
+                            let reader = RecFileReader {
+                                shared: shared.clone(),
+                                id,
+                                t0,
+                                blocks: 0,
+                                bytes: 0,
+                                opened: None,
+                            };
+                            match h
+                                .read_file(path, FileReadConfig::default(), Box::new(reader), Some(cred))
+                                .await
+                            {
+                                Ok(()) => return,
+                                Err(e) => format!("Err(not queued: {e:?})"),
+                            }
+                        }
+                        _ => format!(
+                            "{:?}",
+                            h.read_directory(
+                                path,
+                                DirReadConfig {
+                                    max_block_size: 256,
+                                    max_file_size: 4096
+                                },
+                                None
+                            )
+                            .await
+                        ),
+                    }
+                }
                 UserReq::ReadHeaders(hs) => {
                     let mut v = vec![];
                     let mut bad = false;
